@@ -488,6 +488,8 @@ class World:
             return self._popen(p, r)
         if op == "poll":
             hd = self.handles[r["h"]]
+            if hd["state"] == "done":
+                hd["polled"] = True
             return self._reply(p, rc=hd["rc"] if hd["state"] == "done" else None)
         if op == "wait":
             hd = self.handles[r["h"]]
